@@ -410,4 +410,16 @@ theorem describe_encode (w : Wire) (hw : w.WF = true) :
       obtain ⟨_, f2, f3, f4⟩ := normBlock_facts b hb
       simp [normW, hx, Wire.toPacket, Wire.ignored, Wire.appbits, f2, f3, f4, normBlock_profile]
 
+/-- soundness of the block oracle is by construction -/
+theorem describeBlock_sound (bytes : Bytes) (b : ExtBlock) (h : ExtBlock.describe bytes = some b) :
+    b.WF = true ∧ b.encode = bytes := by
+  simp only [ExtBlock.describe] at h
+  split at h
+  · split at h
+    · rename_i hc
+      cases h
+      simpa using hc
+    · cases h
+  · cases h
+
 end Rtp.Proofs.Wire
